@@ -45,21 +45,24 @@ theorem AllocsOK_same (m m' : PMem) (p4 : Word)
       obtain ⟨h1, h2, h3⟩ := h
       exact ⟨⟨h1.fits, fun q hq hqi hc => h1.notTable q hq hqi (htree q a hq hqi hc)⟩, h2, ih h3⟩
 
-/-- Parent-table flags: contain `PRESENT`, not `HUGE_PAGE`, no address bits. -/
+/-- Parent-table flags: not `HUGE_PAGE`, no address bits. (`PRESENT` need not be requested: a newly created
+parent entry is always linked `PRESENT` - `fix:` commit F9 -, and existing parent entries are present by the
+invariant.) -/
 structure ParentFlagsOK (fl : Word) : Prop where
-  pres : fl &&& 1#64 = 1#64
   nohuge : fl &&& 0x80#64 = 0#64
   noaddr : fl &&& 0x000ffffffffff000#64 = 0#64
 
 /-- Flags of a freshly created parent entry (`PRESENT | WRITABLE` added by the recursive mapper). -/
 def linkFl (k : Kind) (pflags : Word) : Word :=
-  if k.recursive then Pte.PRESENT ||| Pte.WRITABLE ||| pflags else pflags
+  if k.recursive then Pte.PRESENT ||| Pte.WRITABLE ||| pflags else Pte.PRESENT ||| pflags
 
 theorem linkFl_ok (k : Kind) (pflags : Word) (h : ParentFlagsOK pflags) : LinkFlags (linkFl k pflags) := by
-  obtain ⟨h1, h2, h3⟩ := h
+  obtain ⟨h2, h3⟩ := h
   unfold linkFl Pte.PRESENT Pte.WRITABLE
   cases k.recursive
-  · exact ⟨h1, h2, h3⟩
+  · simp only [Bool.false_eq_true, if_false]
+    unfold Word at *
+    refine ⟨?_, ?_, ?_⟩ <;> bv_decide
   · simp only [if_true]
     unfold Word at *
     refine ⟨?_, ?_, ?_⟩ <;> bv_decide
@@ -68,7 +71,7 @@ theorem or_flags_bits (e pflags : Word) (hP : Pte.present e = true) (hS : Pte.hu
     (h : ParentFlagsOK pflags) :
     let v := Pte.setFlags e (Pte.flags e ||| pflags)
     bitP v = true ∧ bitPS v = false ∧ tableAddr v = tableAddr e := by
-  obtain ⟨h1, h2, h3⟩ := h
+  obtain ⟨h2, h3⟩ := h
   unfold Pte.present Pte.PRESENT at hP
   unfold Pte.huge Pte.HUGE at hS
   unfold bitP bitPS tableAddr Pte.setFlags Pte.flags Pte.addr Pte.ADDR_MASK Pte.FLAGS_ALL
@@ -114,7 +117,7 @@ theorem createNextTable_ok (k : Kind) (s : St) (p4 : Word) (r : List Nat) (tbl :
         have hnt : nextTable (Pte.mk f (linkFl k pflags)) = .ok f := by
           rw [nextTable_ok_iff]; exact (tableOf_some_iff _ _).2 ⟨b1, b2, b3.symm⟩
         simp only [St.alloc, St.rd, hall]
-        have hfl : (if k.recursive = true then Pte.PRESENT ||| Pte.WRITABLE ||| pflags else pflags) = linkFl k pflags := rfl
+        have hfl : (if k.recursive = true then Pte.PRESENT ||| Pte.WRITABLE ||| pflags else Pte.PRESENT ||| pflags) = linkFl k pflags := rfl
         simp only [hfl, b4, Bool.not_true, Bool.false_eq_true, if_false, hnt]
         have hmem : ∀ (s0 : St), s0.mem = s.mem →
             ((St.wr s0 tbl i (Pte.mk f (linkFl k pflags))).zeroTable f).mem = linked s.mem tbl i f (linkFl k pflags) := by
